@@ -623,3 +623,59 @@ Proof. intros P1 P2 V1 V2. rewrite (ext_array_spec l1 l2 e1 e2 P1 P2 V1 V2). unf
 Corollary sp_array_passes l1 l2 e1 e2 : map_opt parse_sid l1 = Some e1 -> map_opt parse_sid l2 = Some e2 ->
   (forall i, In i e1 -> sdom i) -> (forall j, In j e2 -> sdom j) -> check_overlap e1 e2 (sp_array l1 l2) = true.
 Proof. intros P1 P2 V1 V2. rewrite (sp_array_spec l1 l2 e1 e2 P1 P2 V1 V2). unfold check_overlap, ref_pairs. apply eqb_reflx. Qed.
+
+(* ================================================================================================================== *)
+(* 8. The radix-tree model by itself (validated against the real library directly, not only through the detector)      *)
+(* ================================================================================================================== *)
+
+Definition key4 := (Z * Z * Z * Z)%type.                   (* zoom, f', x, y  as passed to Append / IsOverlap *)
+Definition tkey (q : key4) : list Z := let '(z, f, x, y) := q in skey z f x y.
+Definition in_range4 (q : key4) : Prop := let '(z, f, x, y) := q in 0 <= z /\ 0 <= f < 2 ^ z /\ 0 <= x < 2 ^ z /\ 0 <= y < 2 ^ z.
+Definition in_range4b (q : key4) : bool :=
+  let '(z, f, x, y) := q in (0 <=? z) && (0 <=? f) && (f <? 2 ^ z) && (0 <=? x) && (x <? 2 ^ z) && (0 <=? y) && (y <? 2 ^ z).
+Lemma in_range4b_spec q : in_range4b q = true <-> in_range4 q.
+Proof. destruct q as [[[z f] x] y]. unfold in_range4b, in_range4. rewrite !andb_true_iff, !Z.leb_le, !Z.ltb_lt. tauto. Qed.
+Definition rel4 (a b : key4) : Prop :=
+  let '(za, fa, xa, ya) := a in let '(zb, fb, xb, yb) := b in rel1 za fa zb fb /\ rel1 za xa zb xb /\ rel1 za ya zb yb.
+Definition rel4b (a b : key4) : bool :=
+  let '(za, fa, xa, ya) := a in let '(zb, fb, xb, yb) := b in rel1b za fa zb fb && rel1b za xa zb xb && rel1b za ya zb yb.
+Lemma rel4b_spec a b : rel4b a b = true <-> rel4 a b.
+Proof. destruct a as [[[za fa] xa] ya], b as [[[zb fb] xb] yb]. unfold rel4b, rel4. rewrite !andb_true_iff, !rel1b_spec. tauto. Qed.
+
+(* Append all keys, then IsOverlap for each query *)
+Definition tree_model (keys qs : list key4) : list bool := map (fun q => rsearch (tkey q) (rbuild (map tkey keys))) qs.
+Definition tree_ref (keys qs : list key4) : list bool := map (fun q => existsb (fun k => rel4b k q) keys) qs.
+
+Lemma tkey_prefix za fa xa ya zb fb xb yb : in_range4 (za, fa, xa, ya) -> in_range4 (zb, fb, xb, yb) -> za <= zb ->
+  (prefix (tkey (za, fa, xa, ya)) (tkey (zb, fb, xb, yb)) <->
+   anc (zb - za) fb = fa /\ anc (zb - za) xb = xa /\ anc (zb - za) yb = ya).
+Proof.
+  intros (Hza & Hfa & Hxa & Hya) (Hzb & Hfb & Hxb & Hyb) Hle. unfold tkey, skey.
+  set (na := Z.to_nat za). set (d := Z.to_nat (zb - za)).
+  replace (Z.to_nat zb) with (d + na)%nat by (unfold d, na; lia).
+  assert (Za : Z.of_nat na = za) by (unfold na; lia). assert (Zd : Z.of_nat d = zb - za) by (unfold d; lia).
+  assert (Zb : Z.of_nat (d + na) = zb) by lia.
+  rewrite prefix_iff_anc; rewrite ?Za, ?Zb, ?Zd; try lia. unfold anc. tauto.
+Qed.
+Theorem tkey_overlap_iff a b : in_range4 a -> in_range4 b ->
+  (prefix (tkey a) (tkey b) \/ prefix (tkey b) (tkey a)) <-> rel4 a b.
+Proof.
+  destruct a as [[[za fa] xa] ya], b as [[[zb fb] xb] yb]. intros Ra Rb. unfold rel4.
+  destruct (Z.lt_trichotomy za zb) as [L|[L|L]].
+  - rewrite (tkey_prefix _ _ _ _ _ _ _ _ Ra Rb ltac:(lia)). rewrite !rel1_le by lia. split; [|tauto].
+    intros [H|H]; [exact H|]. exfalso. revert H. unfold tkey, skey. apply prefix_longer. destruct Ra, Rb. lia.
+  - rewrite (tkey_prefix _ _ _ _ _ _ _ _ Ra Rb ltac:(lia)), (tkey_prefix _ _ _ _ _ _ _ _ Rb Ra ltac:(lia)). rewrite !rel1_le by lia.
+    rewrite L, Z.sub_diag, !anc_0. intuition congruence.
+  - rewrite (tkey_prefix _ _ _ _ _ _ _ _ Rb Ra ltac:(lia)). rewrite !rel1_ge by lia. split; [|intuition].
+    intros [H|H]; [|intuition]. exfalso. revert H. unfold tkey, skey. apply prefix_longer. destruct Ra, Rb. lia.
+Qed.
+(* the library model, for any in-range keys and queries (zoom 0 included), is the ancestor-or-equal relation on the three coordinates *)
+Theorem tree_model_is_ref keys qs : (forall k, In k keys -> in_range4 k) -> (forall q, In q qs -> in_range4 q) ->
+  tree_model keys qs = tree_ref keys qs.
+Proof.
+  intros Rk Rq. unfold tree_model, tree_ref. apply map_ext_in. intros q Hq.
+  apply eq_true_iff_eq. rewrite overlap_spec, existsb_exists. split.
+  - intros (k & Hk & P). apply in_map_iff in Hk. destruct Hk as (a & <- & Ha). exists a. split; [exact Ha|].
+    apply rel4b_spec, tkey_overlap_iff; auto.
+  - intros (a & Ha & R). exists (tkey a). split; [now apply in_map|]. apply tkey_overlap_iff; auto. now apply rel4b_spec.
+Qed.
